@@ -125,7 +125,7 @@ MIN_OBS = {
                  'burst_cut_points': BURST_LEN + 1, 'burst_stop_points': BURST_LEN + 1, 'port_cfgs': len(PORT_CFGS)},
 }
 SHARD_TIMEOUT = {'quick': 600, 'thorough': 5400}
-N_TOTAL = {'quick': 1200, 'thorough': 10000}
+N_TOTAL = {'quick': 1200, 'thorough': 60000}
 EXHAUSTIVE = {'quick': False, 'thorough': False}
 WHAT_FAILS = {
     'login:favourites-joined-although-auto-join-off': 'rooms.auto_join is False but the favourite rooms were joined after login',
